@@ -49,7 +49,8 @@ OPTS = {"fock": {"cutoff_dim": 5}, "gaussian": {}, "bosonic": {}}
 
 def gen_session(rng, backend, cross=False):
     C = er.BACKEND_CLASSES[backend]
-    n = rng.randint(1, 3 if backend == "fock" else 4)
+    # (the bosonic back end cannot post-select homodyne on a one-mode register: IndexError inside the back end)
+    n = rng.randint(2 if backend == "bosonic" else 1, 3 if backend == "fock" else 4)
     nseg = rng.choice([1, 2, 2, 2, 3])
     use_free = rng.random() < 0.3
     allow_newdel = backend != "bosonic" and rng.random() < 0.3
@@ -134,6 +135,21 @@ def gen_session(rng, backend, cross=False):
             spec["succ"][j] = False          # cannot follow: the engine must refuse it in every pattern
             spec["mismatch"] = True
     return spec
+
+
+def gen_mismatch(rng, backend):
+    """a session whose last program cannot follow its predecessor (register changed by New/Del, program built
+    over n fresh modes): the engine must refuse it in every sequencing pattern"""
+    n = rng.randint(2, 3)
+    g = lambda m: dict(cls="Rgate", regs=[m], pars=[pg.dyadic(rng, -6, 6, nonzero=True)])
+    change = rng.choice([dict(cls="New", k=1), dict(cls="Del", regs=[rng.randrange(n)])])
+    dead = change.get("regs", [])
+    first = [g(rng.randrange(n))] * rng.randint(0, 1) + [change]
+    mid = [[g(rng.choice([m for m in range(n) if m not in dead]))]] if rng.random() < 0.5 else []
+    last = [g(rng.randrange(n)), dict(cls="Dgate", regs=[rng.randrange(n)], pars=[0.25, 0.5])]
+    segs = [first] + mid + [last]
+    return dict(backend=backend, n=n, opts=OPTS[backend], segs=segs, args={}, mismatch=True,
+                succ=[False] + [True] * len(mid) + [False])
 
 
 def cross_deps(spec):
@@ -358,6 +374,19 @@ def one_session(ctx, sf, spec, reqs, pending, kinds=("list", "seq", "cat", "rese
             elif op["cls"] == "Del":
                 for r in op["regs"]:
                     last.pop(r, None)
+        lastm = {}
+        for op in [o for sg in spec["segs"] for o in sg]:
+            if er.kind_of(op["cls"]) == "meas":
+                sel = op.get("select")
+                sel = sel if isinstance(sel, (list, tuple)) else [sel] * len(op["regs"])
+                lastm.update(dict(zip(op["regs"], sel)))
+        want = [lastm[r] for r in sorted(lastm)]
+        got = results["cat"]["samples"]
+        if want and None not in want:
+            ctx.oracle_cases += 1
+            if got is None or len(got) != len(want) or any(abs(a - b) > 1e-9 for a, b in zip(got, want)):
+                ctx.fail("samples-not-selected-values", f"{backend}: Engine.samples is {got}, the selected outcomes (ascending "
+                         f"mode order) are {want}", rp)
         vals = results["cat"]["vals"][0]
         for r, v in last.items():
             ctx.oracle_cases += 1
@@ -385,6 +414,11 @@ def one_session(ctx, sf, spec, reqs, pending, kinds=("list", "seq", "cat", "rese
             return "bosonic-segment-reinit"   # run([p0]); reset; run(list): same loss in both, but p0 is re-run
         return f"compositional:{a}-vs-{b}:{backend}"
 
+    # a post-selection on an outcome of probability zero (e.g. x = 0 on |1>) makes the state NaN in every pattern
+    if all(r["state"] is not None and any(np.isnan(x).any() for x in r["state"]) for r in results.values() if r["err"] is None) \
+            and any(r["err"] is None for r in results.values()):
+        ctx.tally("oracle:NaN state in all patterns (zero-probability post-selection)")
+        return
     ref = "cat" if "cat" in results else "list"
     for pat in results:
         if pat == ref:
@@ -804,6 +838,8 @@ def run(ctx, sf):
     for k in range(n):
         for backend in ("gaussian", "fock", "bosonic"):
             spec = gen_session(rng, backend, cross=(k % 10 == 9))
+            if k % 6 == 5 and backend != "bosonic":
+                spec = gen_mismatch(rng, backend)
             one_session(ctx, sf, spec, reqs, pending)
             if k % 2 == 0:
                 reset_and_compile_checks(ctx, sf, spec)
